@@ -75,6 +75,13 @@ func checkRender(t TB, c EncSpec, bc barcode.Barcode, cs barcode.ColorScheme, wh
 	if perr != nil {
 		failf(t, P, K, c, "%s: %v", what, perr)
 	}
+	var aerr error
+	if pv := try(func() { aerr = accessorsAgree(bc) }); pv != nil {
+		failf(t, P, K, c, "%s: reading pixels through RGBA64At / image/draw: %v", what, pv)
+	}
+	if aerr != nil {
+		failf(t, P, K, c, "%s: %v", what, aerr)
+	}
 	if m := bc.ColorModel(); m != cs.Model {
 		failf(t, P, K, c, "%s: ColorModel() is not the model of the scheme in force", what)
 	}
